@@ -564,7 +564,9 @@ impl Melda {
                 // An object can be None if its an "empty" delta array descriptor
                 if let Some(object) = object {
                     let digest = digest_object(&object).unwrap(); // Digest of the current object
-                    if digest.ne(winning_revision.digest()) {
+                    // For array descriptors the object is a non-empty edit script against the
+                    // winner, which is a change even if the winner holds an identical script
+                    if digest.ne(winning_revision.digest()) || is_array_descriptor(uuid) {
                         // Digest is different, there was an update
                         let rev = Revision::new_updated(digest, winning_revision);
                         let winning_revision = winning_revision.clone();
